@@ -11,6 +11,7 @@ so a failing case has exactly one failing `view` op.  No known-finding carve-out
 VIOLATION.
 """
 import json
+import zlib
 import os
 import random
 
@@ -345,7 +346,9 @@ class sandboxed:
         def f(*a, **kw):
             dst = a[1] if name == "symlink" else a[0]
             full = os.path.normpath(os.path.join(os.getcwd(), os.fspath(dst)))
-            if not (full + os.sep).startswith(self.root):
+            # judged by where the entry really lands (the prefix may be addressed through a symbolic link)
+            real = os.path.join(os.path.realpath(os.path.dirname(full)), os.path.basename(full))
+            if not (real + os.sep).startswith(self.root):
                 raise Escape(full)
             return orig(*a, **kw)
         return f
@@ -431,9 +434,17 @@ def run_case(case, ctx):
     import signac
 
     d = os.path.realpath(ctx.fresh_dir("c17"))
+    base = d
     model, impl, oracle, tags = [], [], [], ["u=" + case.get("u", "?")]
     keyparts = []
     try:
+        if zlib.crc32(json.dumps(case, sort_keys=True, default=str).encode()) % 3 == 0:
+            # project and view addressed through a symbolic link whose target lies at another depth
+            # (a linked $HOME / scratch directory): <d>/home -> <d>/storage/vol1/home
+            os.makedirs(os.path.join(base, "storage", "vol1", "home", "project"))
+            os.symlink(os.path.join("storage", "vol1", "home"), os.path.join(base, "home"))
+            d = os.path.join(base, "home", "project")
+            tags.append("via-symlink")
         project = signac.init_project(d)
         ws = project.workspace
         view = os.path.join(d, case["pfx"])
@@ -562,7 +573,7 @@ def run_case(case, ctx):
             if fails:
                 oracle += fails
     finally:
-        ctx.cleanup(d)
+        ctx.cleanup(base)
     key = json.dumps(keyparts, sort_keys=True, default=str) if keyparts else None
     return {"model": model, "impl": impl, "oracle": oracle, "tags": sorted(set(tags)), "key": key}
 
